@@ -1,5 +1,6 @@
 import UpfVerif.Driver.Util
 import UpfVerif.Model.FlowDesc
+import UpfVerif.Spec.IPFilterRule
 namespace UpfVerif.Driver
 open UpfVerif.FlowDesc
 
@@ -31,6 +32,64 @@ def evalFlowDesc (args : List String) (impl : String) : Option Verdict := do
     else
       -- outside the modelled domain (IPv6 literals, non-ASCII): only "no fault" is claimed
       pure { model := impl, propFails := fails }
+  | _ => none
+
+/-! ### `T fd.rule <hex> <abstract syntax> = …`: the specification's verdict for a rule of the grammar -/
+open UpfVerif.Spec.IPFilter in
+def numeralOf (s : String) : Option Numeral :=
+  let ds : List (Fin 10) := s.toList.filterMap fun c =>
+    if '0' ≤ c ∧ c ≤ '9' then some (Fin.ofNat 10 (c.toNat - 48)) else none
+  if h : ds ≠ [] ∧ ds.length = s.length then some ⟨ds, h.1⟩ else none
+
+open UpfVerif.Spec.IPFilter in
+def addrOf (s : String) : Option Addr :=
+  if s == "any" then some .any else if s == "assigned" then some .assigned else
+  let (ipS, lenS) := match splitOn1 s '/' with
+    | [a, l] => (a, some l)
+    | _ => (s, none)
+  match (splitOn1 ipS '.').mapM String.toNat? with
+  | some [a, b, c, d] =>
+    if h : a < 256 ∧ b < 256 ∧ c < 256 ∧ d < 256 then
+      match lenS with
+      | none => some (.host ⟨a, h.1⟩ ⟨b, h.2.1⟩ ⟨c, h.2.2.1⟩ ⟨d, h.2.2.2⟩)
+      | some l => match l.toNat? with
+        | some n => if hn : n < 33 then some (.net ⟨a, h.1⟩ ⟨b, h.2.1⟩ ⟨c, h.2.2.1⟩ ⟨d, h.2.2.2⟩ ⟨n, hn⟩) else none
+        | none => none
+    else none
+  | _ => none
+
+open UpfVerif.Spec.IPFilter in
+def portsOf (s : String) : Option (List PortItem) :=
+  if s == "-" then some [] else
+  (splitOn1 s ';').mapM fun it => match splitOn1 it '-' with
+    | [a] => (numeralOf a).map .one
+    | [a, b] => do pure (.range (← numeralOf a) (← numeralOf b))
+    | _ => none
+
+open UpfVerif.Spec.IPFilter in
+def ruleOf (abs : String) : Option Rule :=
+  match splitOn1 abs ',' with
+  | [d, p, s, sp, t, dp] => do
+    let proto ← if p == "ip" then some none else (numeralOf p).map some
+    pure { dirIn := d == "in", proto := proto, src := ← addrOf s, sports := ← portsOf sp, dst := ← addrOf t, dports := ← portsOf dp }
+  | _ => none
+
+open UpfVerif.Spec.IPFilter in
+def evalFlowRule (args : List String) (impl : String) : Option Verdict := do
+  match args with
+  | [h, abs] =>
+    let bs ← parseDash h
+    let s : Str := bs.map fun b => Char.ofNat b.toNat
+    let r ← ruleOf abs
+    -- the line's string really is a rendering of the rule: its white-space separated tokens are the rule's tokens
+    if fields s != r.tokens then none else
+    let want := fdShow r.denote
+    let model := match parseFlowDesc s with
+      | some f => fdShow f
+      | none => "err"
+    pure { model := model,
+           propFails := if impl == want then [] else
+             [s!"C16 the flow description \"{String.ofList s}\" (a rule of the supported grammar) is translated to [{impl}], it denotes [{want}]"] }
   | _ => none
 
 end UpfVerif.Driver
